@@ -55,6 +55,10 @@ CHECKS = {
    technique="runtime monitoring with fault injection: fault-injecting io.Reader (sentinel after every byte offset) and io.Writer (failure / short write at every write index) wrapped around real calls; oracle on what the wrappers observed",
    text="For each document of a seeded corpus the reader fails after every byte offset through 7 From-Markdown entry points (simple and massive) and the writer fails at every write index of the fault-free run, as error and as short write, for text, custom branches, JSON, YAML, TOML, dry-run and the non-iterator path, From-Markdown and From-Root, simple and massive: a reader failure must come back (errors.Is), any failed write must give a non-nil error, and nil implies the writer accepted the complete output.",
    note="Faults that never took effect are counted inconclusive. Massive results compared as exact block cover. Heading-root documents are not run in massive mode (known finding of C10)."),
+ "C10": dict(level="exploration", design="DESIGN.md §4 C10",
+   technique="runtime monitoring under schedule perturbation: massive result compared with the simple result of the same build (exact block cover, multisets, per-root walk order, jail snapshots, error-iff) across GOMAXPROCS values, yielding/slow user I/O and seeded delays at verifPoint hooks with recorded event traces; race detector in the thorough tier",
+   text="2400 (quick) / 20000 (thorough) seeded scenarios - documents with 1-40 roots in every spelling incl. # headings and leading blank lines, a quarter malformed, one of 9 operations each - are run once in simple mode and 10-20 times in massive mode under GOMAXPROCS 1/2/4/16 and five perturbation profiles; each massive execution must be a permutation of the simple result's root blocks (contiguous and intact), the same JSON/YAML multiset, the same walk rows with per-root order, the same filesystem and verdict, and fail iff simple fails. Evidence counts distinct (scenario, hook-event order) pairs and the hook points reached.",
+   note="Only interleavings actually produced are judged. Error texts are not compared. Known finding KF-C10-1: a massive mkdir that fails has already created other roots."),
 }
 PENDING = {}
 ids = [json.loads(l)["id"] for l in open("/verif/properties.jsonl")]
